@@ -413,7 +413,7 @@ class Interp:
                     fields = []
                     for i, ft in enumerate(ftys):
                         if i == cs[0]:
-                            fields.append(('ref', cs[2], ('slice', mid, 0, hi)))
+                            fields.append(('ref', cs[2], ('slice', mid, nx if cs[1] is None else 0, hi)))
                         elif i == cs[1]:
                             fields.append(I(nx))
                         else:
@@ -440,7 +440,7 @@ class Interp:
                     fields = []
                     for i, ft in enumerate(ftys):
                         if i == cs[0]:
-                            fields.append(('ref', True, ('slice', mid, 0, hi)))
+                            fields.append(('ref', True, ('slice', mid, nx if cs[1] is None else 0, hi)))
                         elif i == cs[1]:
                             fields.append(I(nx))
                         else:
@@ -718,11 +718,38 @@ class Interp:
         ab = self._arr_base(st, ptr)
         if ab is not None and st.loadcache:
             st.loadcache = {k: x for k, x in st.loadcache.items() if k[1] != ab[0]}
-        if ab is None or not (v[0] == 'adt' and v[1] == OPTION and v[2] == 1):
+        if ab is None:
+            return
+        plain = v[0] == 'tuple' and len(v[1]) == 2 and all(e[0] == 'int' for e in v[1])
+        if not plain and not (v[0] == 'adt' and v[1] == OPTION and v[2] == 1):
             return
         T, at = ab
-        x = v[3][0]
+        x = v if plain else v[3][0]
         z = st.zone
+        if plain:
+            # an index list of bare (slot, request) pairs over an array that starts out with dummies: the invariant
+            # is about a PREFIX -- entries [0, fill) are recorded matches -- and grows only by a store at `fill`
+            a, b = x[1][0][1], x[1][1][1]
+            inv = None
+            for e in reversed(st.events):
+                if e[0] == 'loop':
+                    break
+                if e[0] == 'hit' and len(e) >= 4:
+                    pr = self.strip_borrow(e[3])
+                    if isinstance(pr, tuple) and len(pr) >= 3 and pr[0] == 'elem' and self._teq(z, e[2], a) and self._teq(z, pr[2], b):
+                        inv = ('hit-prefix', e[1], pr[1])
+                        break
+            g = st.ghost.get(('arrfill', T))
+            fill = g[0] if g is not None else 0
+            prev = st.arrinv.get(T, 'unset')
+            if inv is not None and prev in ('unset', inv) and self._teq(z, at, fill):
+                st.arrinv[T] = inv
+                self.ghost_bump(st, ('arrfill', T))
+            elif prev != 'unset' and prev is not None and z.entails_le(fill, at) is True and not self._teq(z, at, fill):
+                pass        # a store strictly behind the recorded prefix: the prefix is untouched
+            else:
+                st.arrinv[T] = None
+            return
         if x[0] == 'tuple' and len(x[1]) == 2 and all(e[0] == 'int' for e in x[1]):
             a, b = x[1][0][1], x[1][1][1]
             inv = None
@@ -769,6 +796,11 @@ class Interp:
         inv = st.arrinv.get(tag[1])
         if not inv:
             return
+        if inv[0] == 'hit-prefix':
+            # only entries below the recorded fill level are matches
+            g = st.ghost.get(('arrfill', tag[1]))
+            if g is None or len(tag) < 3 or not st.zone.entails_lt(tag[2], g[0]):
+                return
         ints = []
 
         def walk(x, d=0):
@@ -787,15 +819,17 @@ class Interp:
         walk(v)
         if len(ints) == 2:
             st.hitpairs = (st.hitpairs + ((ints[0], ints[1], inv[1], inv[2]),))[-4:]
-        elif len(ints) == 1 and len(tag) >= 4 and tag[-1] in (0, 1):
-            # the pair is read field by field (`stack[top].0.0`, then `.0.1`): the two halves belong together
+        elif len(ints) == 1 and len(tag) >= 4 and (tag[-1] in (0, 1) or (tag[-1] == '*' and len(tag) >= 5 and tag[-2] in (0, 1))):
+            # the pair is read field by field (`stack[top].0.0`, then `.0.1`; or through a `&(a, b)` pattern: the
+            # field, then a deref): the two halves belong together
+            fld = tag[-1] if tag[-1] in (0, 1) else tag[-2]
             pl = st.pendload
-            if pl is not None and pl[0] == tag[1] and pl[1] is tag[2] and pl[2] != tag[-1]:
+            if pl is not None and pl[0] == tag[1] and pl[1] is tag[2] and pl[2] != fld:
                 a, b = (pl[3], ints[0]) if pl[2] == 0 else (ints[0], pl[3])
                 st.hitpairs = (st.hitpairs + ((a, b, inv[1], inv[2]),))[-4:]
                 st.pendload = None
             else:
-                st.pendload = (tag[1], tag[2], tag[-1], ints[0])
+                st.pendload = (tag[1], tag[2], fld, ints[0])
 
     def store(self, st, ptr, v):
         """returns list of states"""
